@@ -256,6 +256,23 @@ def explore_shard(acc, shard):
                 if plain:
                     acc.count("nontrivial")
         acc.sample(layer, case)
+    elif kind == "P3":
+        # three or four holds open at once, released in every order, nothing after the last tail
+        layer = "P3 several holds released in every order"
+        import itertools as it
+        case = None
+        for ncols in (3, 4):
+            for perm in it.permutations(range(ncols)):
+                for head_types in it.product((M.HOLD, M.ROLL), repeat=1):
+                    stream = [(Fraction(0), c, head_types[0] if c % 2 == 0 else M.ROLL, 0, (c if c else None)) for c in range(ncols)]
+                    stream += sorted([(Fraction(1 + perm[c]), c, M.TAIL, 0, None) for c in range(ncols)], key=lambda n: (n[0], n[1]))
+                    for tail_extra in (None, (Fraction(1 + ncols), 0, M.TAP, 0, None)):
+                        st = stream + ([tail_extra] if tail_extra else [])
+                        check_node(acc, "P3", st, [M.TAP, M.HOLD, M.ROLL, M.TAIL])
+                        acc.count("transitions")
+                        acc.outcome("three or more tails pending at the end")
+                        case = {"stream": fmt_stream(st)}
+        acc.sample(layer, case)
     elif kind == "corpus":
         _, idx = shard
         name, sf, chart = N.corpus_charts()[idx]
@@ -295,6 +312,7 @@ def explore(run):
         for i1 in range(4):
             for j1 in range(i1 + 1, 4):
                 shards.append(("H", c1, i1, j1))
+    shards.append(("P3",))
     shards += [("corpus", i) for i in range(len(N.corpus_charts()))]
     k = run.seed % len(shards)
     shards = shards[k:] + shards[:k]
@@ -313,6 +331,7 @@ def explore(run):
         "tails carry no keysound index; single-player position-sorted streams",
     ]
     core.require(acc.outcomes["keysounded head"] > 0, "no keysounded head")
+    core.require(acc.outcomes["three or more tails pending at the end"] > 0, "never three pending tails")
     core.require(acc.outcomes["round trip with dropped-orphan policy"] > 0, "no dropped-orphan policy")
     for pol in N.POLICIES:
         core.require(acc.outcomes[f"note inside a joined hold, policy {pol}"] > 0, f"no splitting note under {pol}")
